@@ -2,11 +2,11 @@ CONSTANTS
   LabelTerms <- AbsTerms
   Variant = "ok"
   Labels <- L3
-  MaxNodes = 5
+  MaxNodes = 4
   MaxDepth = 4
   Alphabet <- AlphaCore
   MaxToks = 1
-  Big = FALSE
+  Big = TRUE
 SPECIFICATION SpecTrees
 INVARIANT OrIff
 INVARIANT AndOnlyIfBoth
